@@ -1354,3 +1354,169 @@ Proof.
   - destruct (IH Hnd' tr Hin) as (nilP & Hm & Hn). exists nilP. split; [| exact Hn].
     change (sp :: nils) with ([sp] ++ nils). rewrite mine_app, (Hno tr Hin). exact Hm.
 Qed.
+
+Lemma all3_nth_b : forall {A B C} (P : A -> B -> C -> Prop) la lb lc i b,
+  all3 P la lb lc -> nth_error lb i = Some b ->
+  exists a c, nth_error la i = Some a /\ nth_error lc i = Some c /\ P a b c.
+Proof.
+  intros A B C P la lb lc i b H. revert i. induction H as [| a0 b0 c0 la lb lc Hp H IH]; intros i Hn.
+  - destruct i; discriminate.
+  - destruct i as [|i]; cbn [nth_error] in *.
+    + injection Hn as <-. eauto.
+    + apply IH. exact Hn.
+Qed.
+
+Lemma mine_length : forall s log, (length (mine s log) <= length log)%nat.
+Proof.
+  intros s log. unfold mine. rewrite map_length. induction log as [|x l IH]; [apply Nat.le_refl|].
+  cbn [filter length]. destruct (fst x =? s); cbn [length]; lia.
+Qed.
+
+Definition fresh (c : track) : Prop :=
+  tr_page_index c = 0 /\ tr_prev_granule c = 0 /\ tr_last c = None.
+
+Lemma minv_new : forall rw cfgs,
+  NoDup (map tr_serial cfgs) -> Forall fresh cfgs ->
+  minv (new_multi rw cfgs) cfgs (map (fun _ => []) cfgs) [].
+Proof.
+  intros rw cfgs Hnd Hf. unfold minv, new_multi. cbn [mw_out mw_tracks mw_started mw_rewriter].
+  split; [reflexivity|]. split; [exact Hnd|]. split; [apply map_length|]. clear Hnd. split.
+  - induction Hf as [| c l (_ & Hp & _) _ IH]; [reflexivity|]. cbn [map gsum]. now rewrite Hp, IH.
+  - split; [reflexivity|]. split; [reflexivity|].
+    induction Hf as [| c l (Hi & _ & Hl) _ IH]; cbn [map]; constructor; [| exact IH].
+    split; [apply same_static_refl | apply R_fresh; assumption].
+Qed.
+
+Lemma multi_stream_close : forall rw cfgs ops,
+  NoDup (map tr_serial cfgs) -> Forall fresh cfgs ->
+  exists log : list (N * opage),
+    (exists w1, start_locked (multi_run (new_multi rw cfgs) ops) = Ok w1 /\ mw_out w1 = bytes_of log) /\
+    (N.of_nat (length log) < 4294967296 ->
+     exists final,
+       close_multi (multi_run (new_multi rw cfgs) ops) = Ok (bytes_of final) /\
+       forall i cfg ps,
+         nth_error cfgs i = Some cfg ->
+         nth_error (run_pss (map (fun _ => []) cfgs) ops) i = Some ps ->
+         stream_shape (tr_serial cfg) ([hdr_id cfg; hdr_tags cfg] ++ data_pkts 0 ps) (gsum 0 ps)
+                      (mine (tr_serial cfg) final)).
+Proof.
+  intros rw cfgs ops Hnd Hfresh.
+  destruct (multi_run_inv ops _ cfgs _ [] (minv_new rw cfgs Hnd Hfresh)) as (log0 & Hinv0 & Hrw0).
+  set (w := multi_run (new_multi rw cfgs) ops) in *.
+  set (pss := run_pss (map (fun _ => []) cfgs) ops) in *.
+  destruct (start_locked_inv w cfgs pss log0 Hinv0) as (w1 & log & Hs & Hst1 & Hrw1 & Hinv1 & _).
+  exists log. split; [exists w1; split; [exact Hs | apply Hinv1]|]. intros Hbound.
+  destruct Hinv1 as (Hout & _ & Hlen & Hgr & Hall). rewrite Hst1 in Hall.
+  assert (Hrw : mw_rewriter w1 = rw) by (rewrite Hrw1, Hrw0; reflexivity).
+  rewrite Hrw in Hall.
+  pose proof (all3_serials _ _ _ _ _ Hall) as Hser.
+  assert (Hndt : NoDup (map tr_serial (mw_tracks w1))) by (rewrite Hser; exact Hnd).
+  (* facts about each track *)
+  assert (Htr : forall i cfg ps, nth_error cfgs i = Some cfg -> nth_error pss i = Some ps ->
+            exists tr, nth_error (mw_tracks w1) i = Some tr /\ tr_serial tr = tr_serial cfg /\
+              R rw log tr ([hdr_id cfg; hdr_tags cfg] ++ data_pkts 0 ps) /\
+              tr_prev_granule tr = gsum 0 ps).
+  { intros i cfg ps Hc Hp.
+    destruct (all3_nth_b _ _ _ _ i cfg Hall Hc) as (tr & pkts & Ht & Hpk & (Hstat & HR)).
+    rewrite (pkts_of_nth cfgs pss i cfg ps Hc Hp) in Hpk. injection Hpk as <-.
+    exists tr. split; [exact Ht|]. split; [apply Hstat|]. split; [exact HR|].
+    assert (H1 : nth_error (map tr_prev_granule (mw_tracks w1)) i = Some (tr_prev_granule tr))
+      by (rewrite nth_error_map, Ht; reflexivity).
+    rewrite Hgr, nth_error_map, Hp in H1. cbn in H1. congruence. }
+  assert (Hevery : forall tr, In tr (mw_tracks w1) ->
+            exists i cfg ps, nth_error cfgs i = Some cfg /\ nth_error pss i = Some ps /\
+                             nth_error (mw_tracks w1) i = Some tr).
+  { intros tr Hin. apply In_nth_error in Hin. destruct Hin as (i & Hi).
+    destruct (all3_nth _ _ _ _ i tr Hall Hi) as (cfg & pkts & Hc & Hpk & _).
+    assert (Hps : exists ps, nth_error pss i = Some ps).
+    { destruct (nth_error pss i) eqn:E; [eauto|]. apply nth_error_None in E.
+      assert (i < length cfgs)%nat by (apply nth_error_Some; congruence). lia. }
+    destruct Hps as (ps & Hps). exists i, cfg, ps. auto. }
+  assert (Hmine_ne : forall tr, In tr (mw_tracks w1) -> mine (tr_serial tr) log <> [] /\ last_ok rw log tr).
+  { intros tr Hin. destruct (Hevery tr Hin) as (i & cfg & ps & Hc & Hp & Ht).
+    destruct (Htr i cfg ps Hc Hp) as (tr2 & Ht2 & _ & (Hpp & _ & Hl) & _).
+    rewrite Ht in Ht2. injection Ht2 as <-. split; [| exact Hl].
+    cbn [app] in Hpp. exact (packets_pages_nonempty _ _ _ _ _ Hpp). }
+  unfold close_multi. rewrite Hs, Hrw.
+  destruct rw.
+  - destruct (mark_all_spec (mw_tracks w1) log) as (log' & Hma & Hper & _).
+    { intros tr Hin. destruct (Hmine_ne tr Hin). auto. }
+    { exact Hndt. }
+    rewrite Hout, Hma. exists log'. split; [reflexivity|].
+    intros i cfg ps Hc Hp. destruct (Htr i cfg ps Hc Hp) as (tr & Ht & Hsr & (Hpp & _) & _).
+    destruct (Hper tr (nth_error_In _ _ Ht)) as (front & P & P' & H1 & H2 & H3).
+    rewrite Hsr in *. eapply shape_mark; [| exact H3 | exact H2]. rewrite <- H1. exact Hpp.
+  - assert (Hnz : Forall (fun tr => tr_page_index tr <> 0) (mw_tracks w1)).
+    { apply Forall_forall. intros tr Hin. destruct (Hevery tr Hin) as (i & cfg & ps & Hc & Hp & Ht).
+      destruct (Htr i cfg ps Hc Hp) as (tr2 & Ht2 & _ & (_ & Hidx & _) & _).
+      rewrite Ht in Ht2. injection Ht2 as <-. rewrite Hidx.
+      destruct (Hmine_ne tr Hin) as (Hne & _). pose proof (mine_length (tr_serial tr) log).
+      rewrite u32_small by lia. destruct (mine (tr_serial tr) log); [congruence | cbn [length]; lia]. }
+    destruct (each_nil (mw_tracks w1) log Hnz) as (nils & trs' & He & Hf).
+    rewrite Hout, He. exists (log ++ nils). split; [reflexivity|].
+    intros i cfg ps Hc Hp. destruct (Htr i cfg ps Hc Hp) as (tr & Ht & Hsr & (Hpp & Hidx & _) & Hg).
+    destruct (mine_nils _ _ Hf Hndt tr (nth_error_In _ _ Ht)) as (nilP & Hm & Hn).
+    rewrite Hsr in *. rewrite mine_app, Hm.
+    eapply shape_nil; [exact Hpp | | reflexivity]. rewrite <- Hg, <- Hidx. exact Hn.
+Qed.
+
+(* ---------- end-of-stream, all four writer variants ---------- *)
+
+Lemma data_pkts_zero : forall ps g, Forall (fun pk : N * list N * N => fst (fst pk) = 0) (data_pkts g ps).
+Proof.
+  induction ps as [|[p n] ps IH]; intros g; cbn [data_pkts]; constructor; [reflexivity | apply IH].
+Qed.
+
+Lemma plain_track_pkts : forall cfg ps, plain_pkts ([hdr_id cfg; hdr_tags cfg] ++ data_pkts 0 ps).
+Proof.
+  intros cfg ps. unfold plain_pkts. cbn [app]. constructor; [right; reflexivity|].
+  constructor; [left; reflexivity|].
+  eapply Forall_impl; [| apply data_pkts_zero]. intros pk H. left. exact H.
+Qed.
+
+Lemma eos_single : forall fd rate cm serial t ops,
+  exists w0, new_single fd rate cm serial t = Ok w0 /\
+    exists pages, sw_out (single_run w0 ops) = flat_map pg_data pages /\
+      (N.of_nat (length pages) < 4294967296 ->
+       exists front L,
+         close_single (single_run w0 ops) = Ok (flat_map pg_data (front ++ [L])) /\
+         has_eos L = true /\ Forall (fun P => has_eos P = false) front).
+Proof.
+  intros fd rate cm serial t ops.
+  destruct (single_stream fd rate cm serial t ops) as (w0 & Hnew & pages & Hpp & Hout & Hclose).
+  exists w0. split; [exact Hnew|]. exists pages. split; [exact Hout|]. intros Hb.
+  destruct (Hclose Hb) as (final & Hc & Hshape).
+  destruct (shape_eos _ _ _ _ Hshape (plain_track_pkts _ _)) as (front & L & -> & HL & Hf).
+  exists front, L. auto.
+Qed.
+
+Lemma eos_multi : forall rw cfgs ops,
+  NoDup (map tr_serial cfgs) -> Forall fresh cfgs ->
+  exists log : list (N * opage),
+    (exists w1, start_locked (multi_run (new_multi rw cfgs) ops) = Ok w1 /\ mw_out w1 = bytes_of log) /\
+    (N.of_nat (length log) < 4294967296 ->
+     exists final,
+       close_multi (multi_run (new_multi rw cfgs) ops) = Ok (bytes_of final) /\
+       forall cfg, In cfg cfgs ->
+         exists front L, mine (tr_serial cfg) final = front ++ [L] /\
+                         has_eos L = true /\ Forall (fun P => has_eos P = false) front).
+Proof.
+  intros rw cfgs ops Hnd Hf.
+  destruct (multi_stream_close rw cfgs ops Hnd Hf) as (log & Hlog & Hclose).
+  exists log. split; [exact Hlog|]. intros Hb.
+  destruct (Hclose Hb) as (final & Hc & Hshape). exists final. split; [exact Hc|].
+  intros cfg Hin. apply In_nth_error in Hin. destruct Hin as (i & Hi).
+  assert (Hps : exists ps, nth_error (run_pss (map (fun _ => []) cfgs) ops) i = Some ps).
+  { assert (Hlen : length (run_pss (map (fun _ : track => []) cfgs) ops) = length cfgs).
+    { generalize (map_length (fun _ : track => @nil (list N * N)) cfgs).
+      generalize (map (fun _ : track => @nil (list N * N)) cfgs). clear.
+      induction ops as [|[j p] ops IH]; intros pss Hl; [exact Hl|].
+      unfold run_pss. cbn [fold_left fst snd]. apply IH.
+      unfold upd_pss. destruct p; [exact Hl|].
+      destruct (opus_sample_count _); try exact Hl. destruct (nth_error pss j); [| exact Hl].
+      rewrite replace_nth_length. exact Hl. }
+    destruct (nth_error (run_pss (map (fun _ : track => []) cfgs) ops) i) eqn:E; [eauto|].
+    apply nth_error_None in E. assert (i < length cfgs)%nat by (apply nth_error_Some; congruence). lia. }
+  destruct Hps as (ps & Hps).
+  exact (shape_eos _ _ _ _ (Hshape i cfg ps Hi Hps) (plain_track_pkts _ _)).
+Qed.
